@@ -110,7 +110,11 @@ Proof.
   split; [reflexivity|]. split; [vm_compute; reflexivity | exact I].
 Qed.
 
-(* ------------------------------------------------------------------ the P2SH scriptSig rule is NOT implied by the verdict
+(* ------------------------------------------------------------------ the P2SH scriptSig rule and the verdict
+   (history: until /repo e37a8a3d the Legacy verdict compared only the satisfaction ITEMS with 1650 bytes and
+   accepted the script below although its scriptSig - items plus the push of the redeem script - is longer; the
+   sat engine reproduced that on the real library (C01 violation on the then-unchanged tree), the library was
+   repaired, Ms/LiftLimits.v mirrors the repaired test, and this example now shows the script REFUSED.)
    sh(thresh(13, c:pk_h(K0), ac:pk_h(K1), ..., ac:pk_h(K12))), compressed keys, 72-byte signatures, all
    thirteen available.  The Legacy verdict is true (redeem script 363 bytes <= 520, 91 opcodes <= 201,
    max_script_sig_size 1404 <= 1650), the lift succeeds, the policy is true, the satisfier model returns
@@ -136,10 +140,10 @@ Proof.
   replace (N.leb (blen ssig) 1650) with false by (symmetry; apply N.leb_gt; exact H). reflexivity.
 Qed.
 
-Lemma sx_scriptsig_rule_not_implied :
+Lemma sx_scriptsig_rule_now_refused :
   (exists t, type_of sx_m = ROk t /\ c_base (t_corr t) = BB) /\
-  within_resource_limits Legacy (CodecExt.is_uncompressed sx_ke) sx_m = true /\
-  lift_ctx Legacy (CodecExt.is_uncompressed sx_ke) sx_m = LOk sx_p /\ leval sx_A sx_p = true /\
+  within_resource_limits Legacy (CodecExt.is_uncompressed sx_ke) sx_m = false /\
+  lift_ctx Legacy (CodecExt.is_uncompressed sx_ke) sx_m <> LOk sx_p /\ leval sx_A sx_p = true /\
   blen (encode sx_ke sx_m) <= 520 /\
   exists bs ss, satisfy sx_ke sx_se sx_f true true sx_m = Some bs /\
                 witness_to_scriptsig (bs ++ [encode sx_ke sx_m]) = Some ss /\
@@ -147,7 +151,7 @@ Lemma sx_scriptsig_rule_not_implied :
                 forall e h, verify_sh e h (serialize ss) [] = false.
 Proof.
   split; [eexists; split; vm_compute; reflexivity|].
-  split; [vm_compute; reflexivity|]. split; [vm_compute; reflexivity|]. split; [vm_compute; reflexivity|].
+  split; [vm_compute; reflexivity|]. split; [vm_compute; discriminate|]. split; [vm_compute; reflexivity|].
   split; [vm_compute; discriminate|].
   assert (Hs : exists bs, satisfy sx_ke sx_se sx_f true true sx_m = Some bs) by (vm_compute; eexists; reflexivity).
   destruct Hs as [bs Hs]. exists bs.
